@@ -220,8 +220,13 @@ def _byte_models(cls, boundary, examined):
         return A.Lit(boundary)
 
     def index(I, a, n, env):
+        # bytes[i]: the byte at i is examined; out of range is a panic (C01's business), here the scan stops
+        examined.append(A.show(a[1]))
+        I.effects.append(("examine", A.show(a[1]), [], n))
+        if cls is None:
+            raise A._Panic("index out of range")
         return cls
-    return {"core::slice::get": get, "core::str::is_char_boundary": is_boundary}
+    return {"core::slice::get": get, "core::str::is_char_boundary": is_boundary, "index": index}
 
 
 def _literal_bytes(body):
@@ -374,6 +379,7 @@ def _indent_remover_table(ctx, res, rule):
         res.cannot(rule, fn, "loop", "expected one inline scan loop in IndentRemover::format", T.loc(b["tree"]))
         return
     loop = loops[0]
+    seam = b["params"][2]["pat"].get("name") if len(b["params"]) == 3 else "?"     # format(&self, content, byte_pos)
     lits = _literal_bytes(b) | {32, 9, 10}
     classes = [A.Lit(x, "byte") for x in sorted(lits)] + [A.CharClass(None, excluded=lits), None]
     n_ok = 0
@@ -382,8 +388,14 @@ def _indent_remover_table(ctx, res, rule):
             examined = []
             I = A.Interp(P, models=_byte_models(cls, boundary, examined))
             I.lazy_locals = True
+            def one_iteration(J):
+                env = {}
+                # `while c { body }`: the condition is part of the iteration
+                if "while_cond" in loop and not J.cond(loop["while_cond"], env):
+                    raise A._Break(None)
+                return J.ev(loop["body"], env)
             try:
-                outs = I.explore(lambda J: J.ev(loop["body"], {}))
+                outs = I.explore(one_iteration)
             except A.Cannot as e:
                 res.cannot(rule, fn, "loop-body", str(e), T.loc(loop))
                 return
@@ -393,7 +405,19 @@ def _indent_remover_table(ctx, res, rule):
                 is_blank = isinstance(cls, A.Lit) and cls.v in (32, 9)
                 is_nl = isinstance(cls, A.Lit) and cls.v == 10
                 bad = None
-                if o["exit"] == "break" and isinstance(o["value"], A.Lit) and o["value"].v is True:
+                ex_terms = [e[1] for e in o["effects"] if e[0] == "examine"]
+                ret_range = None
+                if o["exit"] == "return" and isinstance(o["value"], A.Tuple) and len(o["value"].items) == 2:
+                    ret_range = (A.show(o["value"].items[0]), A.show(o["value"].items[1]))
+                if ret_range is not None and ret_range[1] == seam and ex_terms and ret_range[0] == "(%s + 1)" % ex_terms[-1]:
+                    # `return (p + 1, seam)` from inside the loop, p the examined position: the found outcome
+                    outcome = "found"
+                    if not (is_nl and boundary):
+                        bad = "accepts byte %s (boundary=%s) as the line break that precedes the indentation" % (cname_, boundary)
+                elif ret_range is not None and ret_range != (seam, seam):
+                    outcome = "stop"
+                    bad = "returns the range %s..%s, which is neither empty nor (examined line break + 1)..seam" % ret_range
+                elif o["exit"] == "break" and isinstance(o["value"], A.Lit) and o["value"].v is True:
                     outcome = "found"
                     at_start = any(k in ("ord(0, cursor)", "ord(cursor, 0)") and v == "=" for k, v in o["decisions"].items()) and not any(e[0] == "examine" for e in o["effects"])
                     if at_start:
@@ -557,8 +581,9 @@ def _indent_remover_ranges(res, rule, P, b):
     """Returns of IndentRemover::format are (byte_pos, byte_pos) or (cursor, byte_pos) with cursor the scan variable."""
     fn = fshort(b)
     rets = []
+    in_loop = {id(x) for lp in T.nodes(b["tree"], "loop") for x in T.nodes(lp)}
     for n in T.nodes(b["tree"]):
-        if n.get("k") == "ret" and n.get("e") is not None:
+        if n.get("k") == "ret" and n.get("e") is not None and id(n) not in in_loop:     # returns inside the scan loop: table rule (R4)
             rets.append(T.peel(n["e"]))
     blk = T.peel(b["tree"])
     while blk.get("k") == "blockexpr":
@@ -567,13 +592,14 @@ def _indent_remover_ranges(res, rule, P, b):
         rets.append(T.peel(blk["tail"]))
     # the scan variable: the local initialised from byte_pos and stepped in the loop
     scan = None
+    seam = b["params"][2]["pat"].get("name") if len(b["params"]) == 3 else None     # format(&self, content, byte_pos)
     for s in T.nodes(b["tree"], "let"):
-        if s["pat"]["p"] == "bind" and s.get("init") is not None and T.render(s["init"]) == "byte_pos" and "Mut" in s["pat"].get("mode", ""):
+        if s["pat"]["p"] == "bind" and s.get("init") is not None and T.render(s["init"]) == seam and "Mut" in s["pat"].get("mode", ""):
             scan = s["pat"]["name"]
     ok = 0
     for r in rets:
         txt = T.render(r)
-        if txt in ("(byte_pos, byte_pos)",) or (scan and txt == "(%s, byte_pos)" % scan):
+        if txt in ("(%s, %s)" % (seam, seam),) or (scan and txt == "(%s, %s)" % (scan, seam)):
             ok += 1
             res.holds(rule, fn, "return:" + txt)
         else:
@@ -643,12 +669,26 @@ def block_ranges(ctx, res, rule):
     lets = lets_of(builder)
     if builder is b:
         sites = []
+        idx_ranges = {id(T.peel(x["idx"])) for x in T.nodes(b["tree"], "index")}
+        literals = [n for n in T.nodes(b["tree"], "struct") if {f["name"] for f in n["fields"]} == {"start", "end"}
+                    and "Range" in (n["res"].get("path") or n.get("ty") or "") and id(n) not in idx_ranges]
         for pu in pushes:
             arg = T.peel(pu["args"][0])
-            if arg.get("k") != "struct" or {f["name"] for f in arg["fields"]} != {"start", "end"}:
+            if arg.get("k") == "struct" and {f["name"] for f in arg["fields"]} == {"start", "end"}:
+                sites.append((arg, pu))
+                continue
+            # a local bound from an expression that builds the range (`if let Some(range) = { .. then_some(start..end) }`,
+            # the shape an extracted-and-inlined helper leaves behind): every range literal inside that expression is judged
+            lid = T.local_of(arg)
+            src = None
+            for n in T.nodes(b["tree"]):
+                if n.get("k") in ("let", "let_cond") and (n.get("init") or n.get("e")) is not None and any(x.get("p") == "bind" and x.get("id") == lid for x in T.pat_nodes(n["pat"])):
+                    src = n.get("init") or n.get("e")
+            inner = [l_ for l_ in literals if src is not None and any(x is l_ for x in T.nodes(src))]
+            if lid is None or not inner:
                 res.cannot(rule, fn, "push:" + T.render(arg), "pushed value is not a range literal", T.loc(pu))
                 continue
-            sites.append((arg, pu))
+            sites += [(l_, pu) for l_ in inner]
     else:
         sites = [(n, n) for n in T.nodes(builder["tree"], "struct") if {f["name"] for f in n["fields"]} == {"start", "end"} and "Range" in (n["res"].get("path") or n.get("ty") or "")]
         for pu in pushes:
@@ -674,12 +714,12 @@ def block_ranges(ctx, res, rule):
         okk = True
         for nm, e in ends.items():
             d = defn_in(lets, T.local_of(e)) if T.local_of(e) is not None else e
-            if d is None or d.get("k") != "call" or not (T.cname(d) or "").endswith("cmp::min") or len(d["args"]) != 2:
+            if d is None or T.min_args(d) is None:
                 res.add(Finding(rule, bfn, site + ":" + nm, "endpoint `%s` of a dedent range is not clamped with min(_, first non-blank of the line): "
                                 "non-blank characters could be deleted" % T.render(e), loc=T.loc(at)))
                 okk = False
                 continue
-            firsts.append(T.render(d["args"][1]))
+            firsts.append(T.render(T.min_args(d)[1]))
         if not okk:
             continue
         if len(set(firsts)) != 1:
@@ -714,7 +754,7 @@ def block_ranges(ctx, res, rule):
             continue
         sd = defn_in(lets, T.local_of(ends["start"])) if T.local_of(ends["start"]) is not None else ends["start"]
         line_start = T.render(bound_src["args"][2])
-        start_first = T.render(sd["args"][0]) if sd is not None else ""
+        start_first = T.render(T.min_args(sd)[0]) if sd is not None and T.min_args(sd) is not None else ""
         if not start_first.startswith("(%s + " % line_start):
             res.add(Finding(rule, bfn, site, "the clamp is not anchored at the same line start as the range (`%s` vs scan from `%s`)" % (start_first, line_start), loc=T.loc(at)))
             continue
@@ -736,11 +776,12 @@ def block_ranges(ctx, res, rule):
             break
         init = defn_in(blets, T.local_of(init))
         hops += 1
-    if init is not None and T.render(init) == "(start_byte_pos + 1)":
+    seam = b["params"][2]["pat"].get("name") if len(b["params"]) == 4 else "?"     # format(&self, content, start, end)
+    if init is not None and T.render(init) == "(%s + 1)" % seam:
         # requires the early return unless bytes[start_byte_pos] == '\n'
         guard = False
         for n in T.nodes(b["tree"], "if"):
-            pol = newline_test(n["cond"], "start_byte_pos")
+            pol = newline_test(n["cond"], seam)
             # `if <not newline> { return .. }` dominating the rest of the body
             if pol is False and any(x.get("k") == "ret" for x in T.nodes(n["then"])) and n.get("els") is None:
                 guard = True
